@@ -106,10 +106,13 @@ MDD_ENGINES = [dict(name="mdd", label="mdd_clean", args=[]), dict(name="mdd", la
 
 PROPS["C13"].update(dict(
     claimed=True,
+    modules=["DdoModel.Props.C13", "DdoModel.Props.C13b"],
+    theorems=PROPS["C13"]["theorems"] + ["Ddo.C13.restrict_cur_le_width", "Ddo.C13.relax_cur_le_width", "Ddo.C13.squash_cur_le_width", "Ddo.C13.stepLayer_expandedOf",
+              "Ddo.C13.stepLayer_expanded_le_width", "Ddo.C13.expandAll_domain_calls_le", "Ddo.C13.stepLayer_domain_calls_le_width", "Ddo.C13.compile_expanded_le_width"],
     engines=[dict(name="width"), dict(name="mdd", label="mdd_clean", args=[]), dict(name="mdd", label="mdd_pooled", args=["--pooled"])],
-    level_text="Sentence 2 (the width-heuristic combinators never yield zero) is proved for every nesting of Times / DivBy / FixedWidth / NbUnassignedWidth and every sub-problem. Sentence 1 (per-layer width bound) is evaluated as the property predicate on every compilation the diagram engine explores (number of for_each_in_domain calls between two next_variable calls, seen by a recording Problem wrapper, for restricted and relaxed compilations of the three diagram implementations), and the executable diagram models (which reproduce the implementation's per-layer expansion counts exactly on everything explored) are the vehicle for the planned theorem expanded_le_width_* - stated, not yet proved.",
-    level_note="Partial: the per-layer bound is not yet a theorem about the diagram model (stage 2); it is checked by phi on the implementation and by exact equality of the per-layer expansion counts between model and implementation. usize arithmetic is the checked arithmetic of the debug / overflow-checks profile.",
-    stated_not_proved=["expanded_le_width_restricted / expanded_le_width_relaxed on Mdd.lean / Pooled.lean (per-layer bound as a theorem)"],
+    level_text="Sentence 2 (the width-heuristic combinators never yield zero) is proved for every nesting of Times / DivBy / FixedWidth / NbUnassignedWidth and every sub-problem. Sentence 1 (per-layer width bound) is proved on the clean diagram model for every problem, relaxation, ranking, cache, dominance rule, cutoff and outcome: in a restricted compilation no layer, and in a relaxed compilation no layer other than the one directly below the root, hands more than max_width nodes to the expansion (compile_expanded_le_width, through restrict / relax / squash bounds and a loop invariant of buildLoop), and the expansion makes at most one domain enumeration per node (expandAll_domain_calls_le); a kernel-checked witness shows the exception for the first relaxed layer is real. The model is tied to the code by exact equality of the per-layer expansion counts on every explored compilation, and the bound is also evaluated on the implementation (number of for_each_in_domain calls between two next_variable calls, seen by a recording Problem wrapper) for the three diagram implementations.",
+    level_note="Partial: the pooled diagram's bound is covered by correspondence + phi only (theorem on Mdd.lean, not on Pooled.lean). usize arithmetic is the checked arithmetic of the debug / overflow-checks profile. MddWidth.lean / C13b.lean were produced by a delegated proof session and are checked by the same lake build / axiom audit.",
+    stated_not_proved=["the same bound on Pooled.lean (pooled diagram): correspondence + phi only"],
     trusted_base=MDD_TB + ["usize arithmetic: checked (panic on overflow / underflow / division by zero)"],
     rule="(a) nested width combinators on a grid + random; (b) " + MDD_RULE,
     trivial_tags=["plain"] + MDD_TRIVIAL,
@@ -138,14 +141,16 @@ SEQ_TB = MDD_TB + ["the diagram is a parameter of the solver model: theorems ass
 SEQ_ENGINES = [dict(name="seq", label="seq_clean", args=[]), dict(name="seq", label="seq_pooled", args=["--pooled"])]
 
 PROPS["C01"] = dict(
-    modules=["DdoModel.Props.C01"],
+    modules=["DdoModel.Props.C01", "DdoModel.Props.C01b", "DdoModel.Props.C01t"],
     theorems=["Ddo.C01.process_inv", "Ddo.C01.init_inv", "Ddo.C01.complete_optimal", "Ddo.C01.infeasible_no_update",
-              "Ddo.enqueue_false_spec", "Ddo.updateBest_ok"],
-    stated_not_proved=["Ddo.C01.SeqTerminates (termination by the Dershowitz-Manna order on fringe depths)", "Ddo.C01.ProcessInvDedup (process_inv for the duplicate-free fringe)",
-                       "Ddo.C01.CachePruneOk / Ddo.C10.DomPruneOk (runs with a threshold cache or cross-diagram dominance)",
+              "Ddo.enqueue_false_spec", "Ddo.updateBest_ok",
+              "Ddo.C01b.process_dedup_rel", "Ddo.C01b.process_inv_dedup", "Ddo.C01b.process_inv_any", "Ddo.C01b.process_inv_dedup_potential",
+              "Ddo.C01t.step_measure_lt", "Ddo.C01t.seq_terminates", "Ddo.C01t.no_infinite_run", "Ddo.C01t.goodStep_inv", "Ddo.C01t.run_inv",
+              "Ddo.C01t.run_end_optimal", "Ddo.C01t.good_terminates", "Ddo.lexLT_wf"],
+    stated_not_proved=["Ddo.C01.CachePruneOk / Ddo.C10.DomPruneOk (runs with a threshold cache or cross-diagram dominance)",
                        "closed theorem with the diagram models plugged in (needs C06-C08 as theorems on Mdd.lean: relaxed_ub, restricted_sound in progress)"],
     level_text="The coverage invariant of the sequential branch-and-bound (if the optimum beats the incumbent, some open sub-problem still has the optimum as its potential and a bound above it; every open sub-problem is exact; the incumbent is the value of the stored feasible solution) is proved to hold initially, to be preserved by process_one_node under exactly the diagram contracts of C06-C08, and to imply - when the fringe is found empty - that the incumbent is the optimum (none iff infeasible). For every model, width, ranking and every diagram meeting the contracts. The solver model is tied to the code by tape validation: every call the real solver makes to its diagram, cache and fringe (arguments included) must be the model's next call, on every explored run; phi compares the final value with the exact optimum.",
-    level_note="Partial: proved for the plain multiset fringe, without cache and without cutoff; termination, the duplicate-free fringe and the cache / dominance configurations are stated, not proved, and watched by tape validation + phi. The diagram contracts are hypotheses here (they are the subject of C06-C08).",
+    level_note="Partial: proved for both fringes (plain multiset and duplicate-free: the latter coalesces the former, process_dedup_rel), without threshold cache / cross-diagram dominance, which are stated, not proved, and watched by tape validation + phi. Termination: every turn of the loop (any pop, any answers, cutoffs included) strictly decreases the per-depth entry counts of the fringe in the lexicographic order, which is well-founded (seq_terminates), provided cut-set nodes are strictly deeper than the node they come from (C08 (ii)) - exactly what fails for the pooled diagram with long arcs (open finding D5). run_end_optimal: any finite run of contract-abiding turns from an invariant state that reaches the empty fringe holds the optimum and a feasible solution. The diagram contracts are hypotheses here (they are the subject of C06-C08). SeqInvDedup / LexNat / C01b / C01t were produced by a delegated proof session and are checked by the same lake build / axiom audit.",
     engines=SEQ_ENGINES, trusted_base=SEQ_TB,
     assumptions=["diagram contracts CompileOk / CutsetOk (C06-C08)", "potential Phi independent of the ub field"],
     rule=SEQ_RULE, trivial_tags=SEQ_TRIVIAL,
@@ -162,8 +167,9 @@ PROPS["C02"] = dict(
     rule=SEQ_RULE, trivial_tags=SEQ_TRIVIAL + ["many_polls"],
 )
 PROPS["C05"] = dict(
-    modules=["DdoModel.Props.C05"],
-    theorems=["Ddo.C05.bounds_at_pop", "Ddo.C05.update_le_ub", "Ddo.C05.cutoff_bounds_restricted", "Ddo.C05.cutoff_bounds_relaxed", "Ddo.C05.aborted_not_exact"],
+    modules=["DdoModel.Props.C05", "DdoModel.Props.C01b"],
+    theorems=["Ddo.C05.bounds_at_pop", "Ddo.C05.update_le_ub", "Ddo.C05.cutoff_bounds_restricted", "Ddo.C05.cutoff_bounds_relaxed", "Ddo.C05.aborted_not_exact",
+              "Ddo.C01b.process_cutoff_dedup_irrel", "Ddo.C01b.cutoff_bounds_restricted_any", "Ddo.C01b.cutoff_bounds_relaxed_any"],
     stated_not_proved=["parallel part (par_cutoff_bounds): see C03 / C04 - not yet modelled"],
     level_text="Sequential part: for every instance and every poll index at which the cutoff fires (during the restricted or during the relaxed compilation of the node in hand) the aborted state satisfies best_lb <= optimum <= best_ub, its solution is feasible with value best_lb, and exactness is not claimed; proved from the coverage invariant, the max-pop order of the fringe and the parent-capped bounds. Tied to the code by tape validation of interrupted runs and by the seqcut engine (every k = 1..K+1).",
     level_note="Partial: the parallel solver's abort path is not covered yet (planned with the parallel model, where the design-time probes found a defect, D4).",
@@ -181,11 +187,12 @@ PROPS["C14"] = dict(
     assumptions=["as C01"], rule=SEQ_RULE + "; after the feasible primal, an equal-valued and a smaller primal with marker solutions are supplied too: they must not replace it", trivial_tags=SEQ_TRIVIAL,
 )
 PROPS["C19"] = dict(
-    modules=["DdoModel.Props.C05"],
-    theorems=["Ddo.C05.process_lb_mono", "Ddo.C05.process_below", "Ddo.C05.next_pop_le", "Ddo.C05.complete_ub_le", "Ddo.C05.cutoff_bounds_relaxed"],
-    stated_not_proved=["cut_run_is_prefix (the run cut at poll k is the uninterrupted run frozen at poll k) and eventually_exact as theorems over whole runs; process_below for the duplicate-free fringe"],
+    modules=["DdoModel.Props.C05", "DdoModel.Props.C01b"],
+    theorems=["Ddo.C05.process_lb_mono", "Ddo.C05.process_below", "Ddo.C05.next_pop_le", "Ddo.C05.complete_ub_le", "Ddo.C05.cutoff_bounds_relaxed",
+              "Ddo.C01b.process_below_any", "Ddo.C01b.next_pop_le_dedup"],
+    stated_not_proved=["cut_run_is_prefix (the run cut at poll k is the uninterrupted run frozen at poll k) and eventually_exact as theorems over whole runs"],
     level_text="The two monotonicity mechanisms are proved on the solver model for every input: the incumbent never decreases through process_one_node (any fringe, any answers), and everything in the fringe after processing a node is below that node's bound (pushed nodes are capped by the parent's bound), so the bound of the next popped node - the next best_ub - never exceeds the current one, and the final best_ub := best_lb does not increase it either. The seqcut engine compares the reported bounds for all consecutive cutoff indices k = 1..K+1 of every explored instance.",
-    level_note="Partial: the statement over whole runs as a function of k is evaluated (phi on all consecutive k) rather than proved; duplicate-free fringe not covered by process_below.",
+    level_note="Partial: the statement over whole runs as a function of k is evaluated (phi on all consecutive k) rather than proved.",
     engines=[dict(name="seqcut")], trusted_base=SEQ_TB,
     assumptions=["fringe pops a maximal element (C11)"], rule=SEQ_RULE, trivial_tags=SEQ_TRIVIAL + ["many_polls"],
 )
